@@ -42,6 +42,9 @@ pub enum Op {
     Guard(bool),
     Mode(bool),
     Critical(u16),
+    /// The link's window is used up: NAKs (production calls on the connection) take the window to its floor, then
+    /// as many packets as the window admits are outstanding on it. true = every link, false = the selected one.
+    Exhaust(u16, bool),
 }
 
 #[derive(Debug, Clone, Hash, Serialize, Deserialize)]
@@ -91,6 +94,7 @@ pub fn strategy(max_ops: usize) -> impl Strategy<Value = Case> {
         1 => prop::bool::weighted(0.8).prop_map(Op::Guard),
         1 => any::<bool>().prop_map(Op::Mode),
         1 => prop_oneof![Just(1u16), 1u16..200].prop_map(Op::Critical),
+        1 => (any::<u16>(), prop::bool::weighted(0.7)).prop_map(|(l, all)| Op::Exhaust(l, all)),
     ];
     (
         1u8..=4,
@@ -176,6 +180,7 @@ pub fn check(case: &Case, obs: &mut Obs) -> CheckResult {
 
     let mut counter: u32 = 0;
     let mut next_seq: u32 = 1;
+    let mut exhaust_round: i32 = 0;
     let mut broken = vec![false; n];
     let mut routed_while_gated = vec![0u64; n];
     let mut probes = vec![0u64; n];
@@ -275,6 +280,35 @@ pub fn check(case: &Case, obs: &mut Obs) -> CheckResult {
                     obs.class("regime-change-with-nonempty-queue");
                 }
                 sh.st.conns[li].batch_sender.set_regime(reg);
+            }
+            Op::Exhaust(l, all) => {
+                let now = sh.now();
+                exhaust_round += 1;
+                for li in 0..n {
+                    if !*all && li != idx(*l, n) {
+                        continue;
+                    }
+                    let c = &mut sh.st.conns[li];
+                    if !c.connected {
+                        continue;
+                    }
+                    // far away from the sequence numbers the client datagrams use
+                    let base = 0x3000_0000 + exhaust_round * 0x10000 + li as i32 * 0x4000;
+                    let mut k = 0;
+                    while c.window > 1000 && k < 800 {
+                        c.register_packet(base + k, now);
+                        c.handle_nak(base + k, now);
+                        k += 1;
+                    }
+                    let want = c.window / 1000 * 1000;
+                    while c.in_flight_packets < want && k < 3000 {
+                        c.register_packet(base + k, now);
+                        k += 1;
+                    }
+                    if c.get_score() == 0 {
+                        obs.class("link-with-its-window-used-up");
+                    }
+                }
             }
             Op::BreakSocket(l) => {
                 let li = idx(*l, n);
